@@ -237,6 +237,8 @@ class Gen:
         r = self.rng
         if d <= 0 or r.random() < 0.25:
             if r.random() < self.consts + 0.2:
+                if r.random() < 0.25:          # a literal marked safe (C08: "values marked safe")
+                    return [A("filter"), cs(r.choice(STR_POOL)), self.pick(["safe", "safe", "escape"])]
                 return cs(r.choice(STR_POOL))
             return n(self.pick(["s", "u", "m", "s"]))
         k = r.random()
